@@ -237,7 +237,10 @@ func c06(r *ev.Run, pairMode bool) {
 		alt(func(in *oin) { in.Challenge[len(in.Challenge)-1] ^= 1 })
 		if sh.S {
 			alt(func(in *oin) { in.Challenge = append(in.Challenge, in.Session[:2]...); in.Session = in.Session[2:] }) // boundary moved right
-			alt(func(in *oin) { in.Session = append(in.Challenge[len(in.Challenge)-2:], in.Session...); in.Challenge = in.Challenge[:len(in.Challenge)-2] }) // boundary moved left
+			alt(func(in *oin) {
+				in.Session = append(in.Challenge[len(in.Challenge)-2:], in.Session...)
+				in.Challenge = in.Challenge[:len(in.Challenge)-2]
+			}) // boundary moved left
 			alt(func(in *oin) { in.Challenge = append(in.Challenge, in.Session...); in.Session = nil })
 			alt(func(in *oin) { in.Session[0] ^= 0x80 })
 		}
